@@ -261,6 +261,10 @@ func checkC10(c *Ctx) {
 
 // ---------- C15 ----------
 
+// lastAKARand is the RAND of the last challenge of the previously generated history: a network may
+// well use the same RAND for two subscribers, and state kept per RAND must not leak between them.
+var lastAKARand string
+
 func genAKAHistory(r *kernel.Rand, maxOps int) map[string]interface{} {
 	sq := func() []byte {
 		switch r.Intn(5) {
@@ -279,6 +283,7 @@ func genAKAHistory(r *kernel.Rand, maxOps int) map[string]interface{} {
 	}
 	he := sq()
 	ue := append([]byte{}, he...)
+	top := r.Sub("top").Chance(1, 12) // the UE sits at the very last SQN: everything is stale, nothing can be accepted any more
 	switch r.Intn(6) {
 	case 0: // equal
 	case 1: // UE ahead by one
@@ -294,6 +299,17 @@ func genAKAHistory(r *kernel.Rand, maxOps int) map[string]interface{} {
 	}
 	h := map[string]interface{}{"k": hex.EncodeToString(boundary128(r)), "op": hex.EncodeToString(boundary128(r)), "amf": hex.EncodeToString(r.Bytes(2)),
 		"sqn_he": hex.EncodeToString(he), "sqn_ue": hex.EncodeToString(ue), "reuse": r.Sub("reuse").Bool()}
+	if top {
+		ue = []byte{0xff, 0xff, 0xff, 0xff, 0xff, 0xff}
+		h["sqn_ue"] = hex.EncodeToString(ue)
+		switch r.Sub("tophe").Intn(3) {
+		case 0:
+			he = []byte{0xff, 0xff, 0xff, 0xff, 0xff, 0xff}
+		case 1:
+			he = []byte{0xff, 0xff, 0xff, 0xff, 0xff, byte(0xf0 - r.Sub("tophe2").Intn(32))}
+		}
+		h["sqn_he"] = hex.EncodeToString(he)
+	}
 	var ops []interface{}
 	n := r.Range(1, maxOps)
 	for i := 0; i < n; i++ {
@@ -314,7 +330,18 @@ func genAKAHistory(r *kernel.Rand, maxOps int) map[string]interface{} {
 		case x == 6: // corrupt the concealed SQN, first octet included
 			op["fault"], op["off"], op["bit"] = "flip-autn", r.Intn(6), r.Intn(8)
 		}
+		if i == 0 && lastAKARand != "" && r.Sub("samerand").Chance(1, 3) && op["op"] == "challenge" {
+			op["rand"] = lastAKARand // the previous subscriber's last RAND again
+		}
 		ops = append(ops, op)
+	}
+	if top {
+		// no liveness to expect: the SQN space of this UE is exhausted
+		h["ops"] = ops
+		if rr, ok := ops[len(ops)-1].(map[string]interface{})["rand"].(string); ok {
+			lastAKARand = rr
+		}
+		return h
 	}
 	// faults stop: two clean exchanges must lead to an accepted challenge
 	for i := 0; i < 2; i++ {
@@ -322,6 +349,7 @@ func genAKAHistory(r *kernel.Rand, maxOps int) map[string]interface{} {
 	}
 	h["ops"] = ops
 	h["expect_final_accepts"] = 2
+	lastAKARand = ops[len(ops)-1].(map[string]interface{})["rand"].(string)
 	return h
 }
 
